@@ -42,7 +42,7 @@ Funs == [
   full |-> {<<"ufunc", "add", <<"py", "pyint", 1>>>>, <<"ufunc", "self", 0>>, <<"func", "cumsum", 0>>, <<"func", "sort", 0>>,
             <<"func", "diff", 1>>, <<"func", "concat", 0>>, <<"func", "concat", -1>>, <<"func", "astype", 0>>, <<"func", "unique_obs", 0>>, <<"func", "nonzero_obs", 0>>, <<"ufunc", "addcol", 0>>, <<"func", "concat1", 0>>},
   small |-> {<<"ufunc", "add", <<"py", "pyint", 1>>>>, <<"func", "cumsum", 0>>, <<"func", "concat", 0>>, <<"ufunc", "addcol", 0>>, <<"func", "concat1", 0>>}]
-Reads == [full |-> {"repr", "str", "tolist", "sum", "len", "unique", "cumsum", "pad", "colbroadcast", "getrow", "rowmean", "size"}, small |-> {"repr", "len"}]
+Reads == [full |-> {"repr", "str", "tolist", "sum", "len", "unique", "cumsum", "pad", "colbroadcast", "getrow", "rowmean", "size", "pairs"}, small |-> {"repr", "len"}]
 
 \* values are written in the target's own element type
 ValFor(h, v) == IF IsFlt(heap[h][1]) THEN <<v, 1>> ELSE v
